@@ -176,6 +176,7 @@ def c05_rules():
         lambda prog, tier: inval.run_invalfn(prog),
         lambda prog, tier: inval.run_coupd(prog, eff(prog)),
         lambda prog, tier: verdict.run(prog),
+        lambda prog, tier: djsym.run_nbsym(prog),
     ]
 
 
@@ -229,7 +230,9 @@ PROPS = {
                        "free_cache(p) on every path from the write to a success return (R-INVAL; documented waiver for QSdelete_rows); "
                        "every function that may write the matrix/dimensions/maps must reset or hand over factorok, every basis installer "
                        "must reset it (R-FOK); every accessor using p->cache is gated on its presence or on qstatus != MODIFIED (R-GATE); "
-                       "free_cache itself always stores QS_LP_MODIFIED and nulls the cache (R-INVALFN); a stored range is co-updated "
+                       "free_cache itself always stores QS_LP_MODIFIED and nulls the cache (R-INVALFN); the decision whether a basis survives a "
+                       "deletion treats all non-basic statuses alike (R-NBSYM); the exact basis-status functions rebuild the internal lp "
+                       "before loading a basis (R-VERDICT); a stored range is co-updated "
                        "with the logical column's bound (R-COUPD).",
         "level_text": "All-paths structural guarantee for cache/factorization invalidation over every public edit entry point, including "
                       "ones added later (the mutator set is computed, not listed). Found four genuine defects on the pinned tree "
